@@ -11,6 +11,7 @@ mod traits;
 mod codec;
 mod cmp;
 mod strapi;
+mod adversary;
 
 #[global_allocator]
 static GLOBAL: alloc::Tracking = alloc::Tracking;
@@ -48,6 +49,7 @@ fn main() {
         "codec" => codec::run(&out, &tier, seed, &rest),
         "cmp" => cmp::run(&out, &tier, seed, &rest),
         "strapi" => strapi::run(&out, &tier, seed, &rest),
+        "adversary" => adversary::run(&out, &tier, seed, &rest),
         _ => { eprintln!("unknown driver {}", driver); std::process::exit(2); }
     }
 }
